@@ -66,6 +66,9 @@ def decode(d):
         derive = d.choice(["copy", "copy", "mul"])
     elif fam == "text":
         obj = ["text", d.choice(["hello", "a b", "x"]), gen.point(d, c)]
+        if d.chance(2, 3):
+            # the outline of the text, placed in .path as the class documents (bbox() reads it)
+            obj.append(gen.path_segments(d, max_subpaths=2, max_segs=3, c=c))
         derive = d.choice(["copy", "mul", "abs"])
     else:
         obj = ["image", gen.point(d, c), [abs(c(d)) + 1, abs(c(d)) + 1]]
@@ -137,6 +140,9 @@ def build(obj):
     if fam == "text":
         t = se.Text(obj[1], x=obj[2][0], y=obj[2][1])
         t.fill = se.Color("navy")
+        if len(obj) > 3:
+            t.path = lib.mk_path(obj[3])
+            t.path.stroke = se.Color("green")
         return t
     if fam == "image":
         return se.Image(x=obj[1][0], y=obj[1][1], width=obj[2][0], height=obj[2][1], href="nothing.png")
@@ -206,7 +212,7 @@ def snapshot(x):
     if isinstance(x, (se.Group, se.Use)):
         return ("group", tuple(snapshot(c) for c in x), tuple(common))
     if isinstance(x, se.Text):
-        return ("text", x.text, repr(x.x), repr(x.y), tuple(common))
+        return ("text", x.text, repr(x.x), repr(x.y), snapshot(x.path) if x.path is not None else None, tuple(common))
     if isinstance(x, se.Image):
         return ("image", repr(x.url), repr(x.x), repr(x.y), repr(x.width), repr(x.height), tuple(common))
     raise core.HarnessError("no snapshot for %r" % type(x))
@@ -416,9 +422,19 @@ def mutate(t, mut):
                 t.values["mutated"] = "yes"
         return "group:%d" % k
     if isinstance(t, se.Text):
-        k %= 4
+        k %= 7 if t.path is not None else 4
         if k == 0:
             t *= M
+        elif k == 4:
+            t.path *= M
+        elif k == 5:
+            t.path *= M
+            t.path.reify()
+        elif k == 6:
+            if t.path.stroke is not None:
+                t.path.stroke.green = 3
+            if len(t.path):
+                t.path[-1].end.x += val
         elif k == 1:
             t.text = t.text + "!"
         elif k == 2:
